@@ -35,8 +35,8 @@ ASSUMPTIONS = ['reference model: per-column / per-row Python lists (sfmon/model/
                'dtypes of untouched columns are not judged here (block-granular widening is keyed under C03/C08); names are not judged (isna/dropna do not propagate them by design)',
                'datetime64[ns] columns are left out (object widening turns them into ints: keyed under C07); ints kept within +-2**31 (C07)',
                'label-aligned fill: container labels are of the same kind as the target labels; cells the container does not cover stay as they are']
-TIERS = {'quick': {'shards': 8, 'budget_s': 150, 'min_nontrivial': 20000},
-         'thorough': {'shards': 16, 'budget_s': 1500, 'min_nontrivial': 300000}}
+TIERS = {'quick': {'shards': 8, 'budget_s': 300, 'min_nontrivial': 100000},
+         'thorough': {'shards': 16, 'budget_s': 3000, 'min_nontrivial': 1500000}}
 ANCHORS = {
     'static_frame.core.util': ['isna_array', 'binary_transition', 'slices_from_targets', 'isin_array', 'dtype_to_fill_value'],
     'static_frame.core.type_blocks': ['TypeBlocks._fillna_sided_axis_0', 'TypeBlocks._fillna_sided_axis_1',
@@ -192,7 +192,10 @@ def _covering_labels(labels, kind, rng):
         if cs(l) not in seen:
             seen.add(cs(l))
             uniq.append(l)
-    rng.shuffle(uniq)
+    if kind.startswith('hier'):
+        uniq.sort(key=lambda t: tuple(repr(cs(x)) for x in t))  # a hierarchy needs contiguous outer labels; still not the target's order
+    else:
+        rng.shuffle(uniq)
     return uniq, ('int' if kind == 'auto' else kind)
 
 
@@ -225,8 +228,6 @@ def _frame_op(spec, rng):
     if r < 0.64:
         return ('fillna', rng.choice(_FILL_VALUES))
     if r < 0.78:
-        if spec.row_kind.startswith('hier') or spec.col_kind.startswith('hier'):
-            return ('fillna', rng.choice(_FILL_VALUES))
         return ('fillna_frame', _fill_frame_spec(spec, rng))
     if r < 0.88:
         return ('dropna', rng.choice([0, 1]), rng.choice(['all', 'any']))
@@ -245,8 +246,6 @@ def _series_op(spec, rng):
     if r < 0.6:
         return ('fillna', rng.choice(_FILL_VALUES))
     if r < 0.8:
-        if spec.kind.startswith('hier'):
-            return ('fillna', rng.choice(_FILL_VALUES))
         return ('fillna_series', _fill_series_spec(spec, rng))
     if r < 0.88:
         return ('dropna',)
@@ -267,6 +266,8 @@ def probes(ctx):
         {'kind': 'frame', 'spec': f0c, 'layout': [], 'go': False, 'ops': [('isna',), ('forward', 0, 0), ('dropna', 0, 'any')]},
         {'kind': 'frame', 'spec': f0r, 'layout': [(0, 1, False), (1, 2, False)], 'go': False, 'ops': [('leading', 0.0, 0)]},
         {'kind': 'frame', 'spec': f2, 'layout': [(0, 1, False), (1, 2, False)], 'go': False, 'ops': [('fillna_frame', disjoint_rows)]},
+        {'kind': 'series', 'spec': F.SeriesSpec([('A', 1), ('A', 2), ('B', 1)], 'hier2', 'float64', [NAN, 1.0, NAN], None),
+         'ops': [('fillna_series', F.SeriesSpec([('A', 1), ('B', 1)], 'hier2', 'float64', [10.0, 20.0], None))]},
     ]
 
 
@@ -276,18 +277,15 @@ _QUICK_SAMPLED = {(2, 3): 8, (3, 3): 40}
 
 def generate(ctx):
     rng = ctx.rng
-    if ctx.tier == 'quick':
-        for case in list(_exh_tables(_QUICK_COMPLETE))[ctx.shard::ctx.nshards]:
+    finished = False
+    try:
+        for case in _enumerated(ctx, rng):
             yield case
-        for shape, frac in _QUICK_SAMPLED.items():
-            share = list(_exh_tables([shape]))[ctx.shard::ctx.nshards]
-            for i in sorted(rng.sample(range(len(share)), len(share) // frac)):
-                yield dict(share[i], sampled=True)
-    else:
-        for case in list(_exh_tables([(nr, nc) for nr in (1, 2, 3) for nc in (1, 2, 3)]))[ctx.shard::ctx.nshards]:
-            yield case
-    for case in list(_exh_series_cases())[ctx.shard::ctx.nshards]:
-        yield case
+        finished = True
+    finally:
+        if not finished:
+            # the runner stopped consuming (budget expired): the EXHAUSTIVE claim does not hold for this run
+            ctx.harness_errors.append('C14: the enumerated part was cut short before completion; exhaustiveness not established')
     for _ in range(ctx.n(20000, 400000)):
         if rng.random() < 0.72:
             zero = rng.random() < 0.025
@@ -300,6 +298,21 @@ def generate(ctx):
                                         kinds=_ROWK + ['mixed'], missing_ok=False)
             spec.values = _column_with_missing(spec.dtype, len(spec.labels), rng.choice(_P), rng)
             yield {'kind': 'series', 'spec': spec, 'ops': [_series_op(spec, rng) for _ in range(5)]}
+
+
+def _enumerated(ctx, rng):
+    if ctx.tier == 'quick':
+        for case in list(_exh_tables(_QUICK_COMPLETE))[ctx.shard::ctx.nshards]:
+            yield case
+        for shape, frac in _QUICK_SAMPLED.items():
+            share = list(_exh_tables([shape]))[ctx.shard::ctx.nshards]
+            for i in sorted(rng.sample(range(len(share)), len(share) // frac)):
+                yield dict(share[i], sampled=True)
+    else:
+        for case in list(_exh_tables([(nr, nc) for nr in (1, 2, 3) for nc in (1, 2, 3)]))[ctx.shard::ctx.nshards]:
+            yield case
+    for case in list(_exh_series_cases())[ctx.shard::ctx.nshards]:
+        yield case
 
 
 # --------------------------------------------------------------------------------------
@@ -828,5 +841,6 @@ def _check_series(case, ctx):
         if op[0] == 'fillna_series':
             cov = _common(spec.labels, op[1].labels)
             ctx.tally('container_fill', 'series:' + {'none': 'nothing_covered', 'all': 'fully_covered', 'some': 'partly_covered'}[cov])
-    ctx.sample({'series': spec.brief(), 'ops': [canon.brief(o, 80) for o in case['ops']]})
+    if not ctx.current_is_probe:
+        ctx.sample({'series': spec.brief(), 'ops': [canon.brief(o, 80) for o in case['ops']]})
     _series_battery(ctx, spec, case['ops'], ('series', repr(spec)), {'exh': False})
